@@ -228,6 +228,9 @@ func CheckBindings(fd *descriptorpb.FileDescriptorProto, src string) []string {
 			if o.PerNodeArg != bi.SetsPerNode || o.PerNodeArg != bi.HasFParam {
 				bad = append(bad, fmt.Sprintf("%s: per_node_arg=%v but the stub takes f: %v and passes it on (cd.PerNodeArgFn): %v", full, o.PerNodeArg, bi.HasFParam, bi.SetsPerNode))
 			}
+			if o.Custom != "" && !(o.Quorumcall || o.Correctable) {
+				bad = append(bad, fmt.Sprintf("%s: custom_return_type %q is declared, but the method's call type has no quorum function that could produce it (the stub cannot honour the option)", full, o.Custom))
+			}
 			if o.Quorumcall || o.Correctable {
 				if !bi.SetsQF || bi.QFMethod != gn+"QF" {
 					bad = append(bad, fmt.Sprintf("%s: stub does not route replies to the quorum function %sQF (sets QuorumFunction: %v, calls %q)", full, gn, bi.SetsQF, bi.QFMethod))
